@@ -113,11 +113,69 @@ end
 
 /-! ## encoding -/
 
-/-- `StandardLengthType.__apply_mask` / `__get_used_mask` are only modelled without BIT-MASK -/
+/-! ### BIT-MASK (`StandardLengthType.__apply_mask`, `__unapply_mask`, `__get_used_mask`) -/
+
+/-- the low bits of a Python `int` as a natural number: `x & ((1 << n) - 1)` (two's complement for negatives) -/
+def lowBits (x : Int) (n : Nat) : Nat := (x % (2 : Int) ^ n).toNat
+
+/-- condensed `__apply_mask`: the bits of `v` at the one-positions of `mask`, packed towards bit 0.
+    `while bit_mask >= (1 << mask_bit)`: `fuel` = remaining bit positions of the mask -/
+def gatherBits (mask v : Nat) : (fuel : Nat) → (maskBit resultBit : Nat) → Nat
+  | 0, _, _ => 0
+  | f+1, i, o =>
+    if mask.testBit i then (if v.testBit i then 2 ^ o else 0) + gatherBits mask v f (i + 1) (o + 1)
+    else gatherBits mask v f (i + 1) o
+
+/-- condensed `__unapply_mask`: bit `input_bit` of `r` goes to the next one-position of `mask` -/
+def scatterBits (mask r : Nat) : (fuel : Nat) → (maskBit inputBit : Nat) → Nat
+  | 0, _, _ => 0
+  | f+1, i, k =>
+    if mask.testBit i then (if r.testBit k then 2 ^ i else 0) + scatterBits mask r f (i + 1) (k + 1)
+    else scatterBits mask r f (i + 1) k
+
+/-- `__apply_mask(internal_value)` -/
+def applyMask (mask : Nat) (condensed : Bool) (v : IVal) : EncM IVal :=
+  match v with
+  | .int i =>
+    let u := lowBits i (bitLength mask)
+    pure (.int (if condensed then gatherBits mask u (bitLength mask) 0 0 else u &&& mask))
+  | .bytes b =>
+    -- int.from_bytes(value, "big") … result.to_bytes(len(value), "big"): the result never has more bits than the value
+    let u := ofBytesBE b
+    pure (.bytes (toBytesBE b.length (if condensed then gatherBits mask u (bitLength mask) 0 0 else u &&& mask)))
+  | _ => do odxraise .odx; raise .unmodelled                    -- lenient: returns None / the value itself
+
+/-- `__get_used_mask(internal_value)`: big-endian, before the byte order is applied -/
+def usedMaskOf (mask : Nat) (condensed : Bool) (bl : Nat) (v : IVal) : Bytes :=
+  if condensed then
+    let n := popCount (mask + 1) mask
+    toBytesBE ((n + 7) / 8) (2 ^ n - 1)
+  else
+    let sz := match v with
+      | .bytes b => b.length
+      | _ => (bl + 7) / 8
+    toBytesBE sz (mask % 2 ^ (8 * sz))
+
+/-- `__unapply_mask(raw_value)` -/
+def unapplyMask (mask : Nat) (condensed : Bool) (v : IVal) : OdxM σ IVal :=
+  match v with
+  | .int i =>
+    let u := lowBits i (bitLength mask)
+    pure (.int (if condensed then scatterBits mask u (bitLength mask) 0 0 else u &&& mask))
+  | .bytes b =>
+    let u := ofBytesBE b
+    let r := if condensed then scatterBits mask u (bitLength mask) 0 0 else u &&& mask
+    -- a condensed mask with one-bits beyond the object: "do not fit into a byte field" (DecodeError, both modes)
+    if r ≥ 256 ^ b.length then raise .decode else pure (.bytes (toBytesBE b.length r))
+  | _ => do odxraise .odx; raise .unmodelled
+
+/-- `StandardLengthType.encode_into_pdu` and the other diag-coded types -/
 def encodeDct (dct : Dct) (v : IVal) : EncM Unit := do
   match dct with
   | .std bt enc hl bl none _ => emplaceAtomic v bl bt enc hl none
-  | .std _ _ _ _ (some _) _ => raise .unmodelled
+  | .std bt enc hl bl (some m) c => do
+    let v' ← applyMask m c v
+    emplaceAtomic v' bl bt enc hl (some (usedMaskOf m c bl v))
   | .minmax bt enc hl minLen maxLen term => do
     -- raw bytes of the value
     let raw ← (match v with
